@@ -19,6 +19,17 @@ theorem reach_inv {P : Prog} {c0 c : Cfg} {I : Cfg → Prop} (h0 : I c0)
   | deliver _ hd ih => exact hdel _ _ ih (deliver_code hd) (deliver_keep hd)
   | @halt c1 c2 o _ hs ih => have := step_facts P c1; rw [hs] at this; exact hstep _ _ ih this
 
+theorem reach_trans {P : Prog} {c0 c c' : Cfg} (hr : Reach P c0 c) (ht : Trans P c c') : Reach P c0 c' := by
+  cases ht with
+  | step hs => exact .step hr hs
+  | deliver hd => exact .deliver hr hd
+  | halt hs => exact .halt hr hs
+
+theorem reach_steps {P : Prog} {c0 c c' : Cfg} (hr : Reach P c0 c) (hs : Steps P c c') : Reach P c0 c' := by
+  induction hs with
+  | refl => exact hr
+  | tail _ ht ih => exact reach_trans ih ht
+
 /-- a transition is a machine step (with its facts) or a delivery -/
 theorem trans_cases {P : Prog} {c c' : Cfg} (ht : Trans P c c') : StepFacts c c' ∨ (c'.code = c.code ∧ Keep c c') := by
   cases ht with
@@ -56,7 +67,7 @@ theorem regInv_reach {P : Prog} {c0 c : Cfg} (h0 : Started c0) (hr : Reach P c0 
   · intro c c' ih sf h d s hm
     rcases sf.code _ hm rfl with h1 | h1
     · exact sf.handlers _ (ih h d s (List.mem_of_mem_tail h1))
-    · exact sf.handlers _ h1.2
+    · exact sf.handlers _ h1.2.1
   · intro c c' ih hc hk h d s hm
     rw [hc] at hm
     exact hk.handlers _ (ih h d s hm)
@@ -83,37 +94,33 @@ theorem afterStart_fq_steps {P : Prog} {c c' : Cfg} (hA : AfterStart c) (hf : c.
   | refl => exact ⟨hA, hf⟩
   | tail _ ht ih => exact afterStart_fq_trans ih.1 ih.2 ht
 
-/-- under force-quit no new dispatch enters its handler loop: the signals with a handler-call instruction pending can only
-become fewer -/
-theorem inDispatch_trans {P : Prog} {c c' : Cfg} (hf : c.L.forceQuit = true) (ht : Trans P c c') :
-    ∀ s ∈ c'.inDispatch, s ∈ c.inDispatch := by
-  intro s hs
-  obtain ⟨i, hi, his⟩ := List.mem_filterMap.1 hs
-  rcases trans_cases ht with sf | ⟨hc, _⟩
-  · have hb : i.boring = false := by cases i <;> simp [Instr.callSig] at his <;> rfl
-    rcases sf.code i hi hb with h1 | h1
-    · exact List.mem_filterMap.2 ⟨i, List.mem_of_mem_tail h1, his⟩
-    · cases i with
-      | callH h d s' =>
-        simp [Instr.callSig] at his; subst his
-        obtain ⟨⟨k, hk, _⟩, _⟩ := h1
-        exact List.mem_filterMap.2 ⟨_, head_mem hk, rfl⟩
-      | gCall s' hs' k =>
-        simp [Instr.callSig] at his; subst his
-        rcases h1 with ⟨k0, hk⟩ | ⟨q, g, _, _, _, hfq⟩
-        · exact List.mem_filterMap.2 ⟨_, head_mem hk, rfl⟩
-        · rw [hf] at hfq; cases hfq
-      | _ => simp [Instr.callSig] at his
-  · rw [hc] at hi
-    exact List.mem_filterMap.2 ⟨i, hi, his⟩
+/-- a handler-call instruction is pending only as the very next instruction (it was pushed by the handler loop one step
+ago), nowhere deeper in the code, and only while force-quit is not set -/
+def CallInv (c : Cfg) : Prop :=
+  ∀ h d s, Instr.callH h d s ∈ c.code →
+    c.code.head? = some (.callH h d s) ∧ Instr.callH h d s ∉ c.code.tail ∧ c.L.forceQuit = false
 
-theorem inDispatch_steps {P : Prog} {c c' : Cfg} (hA : AfterStart c) (hf : c.L.forceQuit = true) (hs : Steps P c c') :
-    ∀ s ∈ c'.inDispatch, s ∈ c.inDispatch := by
-  induction hs with
-  | refl => exact fun s h => h
-  | tail hs' ht ih =>
-    intro s h
-    exact ih s (inDispatch_trans (afterStart_fq_steps hA hf hs').2 ht s h)
+theorem callInv_reach {P : Prog} {c0 c : Cfg} (h0 : Started c0) (hr : Reach P c0 c) : CallInv c := by
+  obtain ⟨init, hs, q, stdin, rfl⟩ := h0
+  refine reach_inv (by intro h d s hm; simp [initCfg] at hm) ?_ ?_ hr
+  · intro c c' ih sf h d s hm
+    rcases sf.code _ hm rfl with h1 | h1
+    · exact absurd h1 (ih h d s (List.mem_of_mem_tail h1)).2.1
+    · obtain ⟨⟨k, hk, _, hcode⟩, _, hf⟩ := h1
+      refine ⟨by simp [hcode], ?_, ?_⟩
+      · rw [hcode]
+        intro hm'
+        simp only [List.tail_cons, List.mem_cons] at hm'
+        rcases hm' with hm' | hm'
+        · cases hm'
+        · exact (ih h d s (List.mem_of_mem_tail hm')).2.1 hm'
+      · cases hq : c'.L.forceQuit with
+        | false => rfl
+        | true => have := sf.fqSet hf hq; rw [hk] at this; cases this
+  · intro c c' ih hc hk h d s hm
+    rw [hc] at hm ⊢
+    obtain ⟨h1, h2, h3⟩ := ih h d s hm
+    exact ⟨h1, h2, by rw [hk.fq]; exact h3⟩
 
 /-! ### batches -/
 
